@@ -370,6 +370,13 @@ func (x *c22) loopRule(o *Obl, fi *FuncInfo, c *CFGInfo, blk *cfg.Block, idx int
 			o.Unknown("assignment to %s not found in the control-flow graph", res.Name())
 			return
 		}
+		// an assignment executed only where the variable is nil cannot hide a callback error
+		if c.GuardedBy(a.Node, func(l Lit) bool {
+			isNil, ok := cgxAssertsNil(x.info, l, res)
+			return ok && isNil
+		}) {
+			continue
+		}
 		if cgxReaches(c, blk, idx+1, ab, ai, nil) && cgxReaches(c, ab, ai+1, blk, idx, nil) {
 			o.Unknown("%s is assigned again inside the loop, between the callback and its next invocation", res.Name())
 			return
